@@ -8,4 +8,8 @@ mkdir -p .build .work evidence replays
 (cd harness && go build -tags verif -o ../.build/child ./cmd/child) || exit 1
 (cd harness && go build -race -tags verif -o ../.build/child-race ./cmd/child) || exit 1
 (cd harness && go build -tags 'verif constantTime' -o ../.build/childct-verif_constantTime ./cmd/childct) || exit 1
+for tags in 'verif' 'verif generic' 'verif purego' 'verif constantTime' 'verif constantTime purego'; do
+  n=$(printf %s "$tags" | sed 's/[^A-Za-z0-9][^A-Za-z0-9]*/_/g')
+  (cd harness && go build -tags "$tags" -o "../.build/ctprog-$n" ./cmd/ctprog) || exit 1
+done
 echo setup ok
